@@ -192,7 +192,8 @@ def run_check(tier, seed):
                 run.add_violation("oracle", {"stream": "binary_adversarial_argv", "what": d + tag, "described": desc, "rc": r, "stdout": o.decode("utf-8", "replace")[:300],
                                              "stderr": e.decode("utf-8", "replace")[-500:]}, True)
         st["verbose_pairs"] += 1
-        if rc != rcv or mask_now(out.decode("utf-8", "replace"), now) != mask_now(outv.decode("utf-8", "replace"), now):
+        if (rc != rcv or mask_now(out.decode("utf-8", "replace"), now) != mask_now(outv.decode("utf-8", "replace"), now)) and \
+                (rc != rcv or really_differs((argv, inp), (argv[:1] + ["-v"] + argv[1:], inp))[0]):
             run.add_violation("oracle", {"stream": "binary_adversarial_argv", "what": "-v changes the exit status or what is printed on stdout (logs must go to stderr)", "described": desc,
                                          "rc": [rc, rcv], "stdout": out.decode("utf-8", "replace")[:300], "stdout_verbose": outv.decode("utf-8", "replace")[:600]}, True)
         if rc == 0 and argv[0] in ("version", "flow", "render") and not any(isinstance(a, str) and (a.startswith("--output-template") or a in ("-h", "--help", "--llm-help", "-V", "--version")
